@@ -1712,3 +1712,127 @@ Proof.
     destruct (r_map r1 x) as [ex|]; [|reflexivity]. destruct (a_online ex); reflexivity.
   - intros x. destruct (ip_eqb x k) eqn:EX; [|reflexivity]. ipeq. subst x. unfold upd_base. rewrite CRE. reflexivity.
 Qed.
+
+(* ------------------------------------------------------------------ *)
+(* outside the discipline: Notify called twice, and the full channel *)
+
+Lemma hosts_send n s : hosts (send n s) = hosts s.
+Proof. unfold send. destruct (Nat.ltb _ _); reflexivity. Qed.
+
+Lemma lastf_send n s : lastf (send n s) = lastf s.
+Proof. unfold send. destruct (Nat.ltb _ _); reflexivity. Qed.
+
+Lemma lastf_make_offline k s : lastf (make_offline k s) = lastf s.
+Proof.
+  unfold make_offline. destruct (hlookup k (hosts s)); [|reflexivity].
+  match goal with |- lastf (if ?b then send ?n ?x else ?y) = _ => destruct b; [rewrite lastf_send|]; reflexivity end.
+Qed.
+
+Lemma lastf_fold_mo l : forall s, lastf (fold_left (fun st v => make_offline v st) l s) = lastf s.
+Proof. induction l as [|v l IH]; intros s; simpl; [reflexivity|]. rewrite IH. apply lastf_make_offline. Qed.
+
+Lemma notify_host_lastf k b s : lastf (notify_host k b s) = lastf s.
+Proof.
+  unfold notify_host. destruct (hlookup k (hosts s)) as [h|]; [|reflexivity]. destruct (negb (h_dirty h)); [reflexivity|].
+  match goal with |- context [fold_left ?g ?l s] => set (s1 := fold_left g l s) end.
+  assert (E : lastf s1 = lastf s) by apply lastf_fold_mo.
+  destruct (hlookup k (hosts s1)); [rewrite lastf_send|]; exact E.
+Qed.
+
+(* after notify_host the host is absent or clean, whatever the channel held *)
+Lemma notify_host_clean k b s :
+  hlookup k (hosts (notify_host k b s)) = None \/
+  exists h, hlookup k (hosts (notify_host k b s)) = Some h /\ h_dirty h = false.
+Proof.
+  unfold notify_host. destruct (hlookup k (hosts s)) as [h|] eqn:L; [|left; exact L].
+  destruct (negb (h_dirty h)) eqn:D.
+  - right. exists h. split; [exact L|]. apply negb_true_iff. exact D.
+  - match goal with |- context [fold_left ?g ?l s] => set (s1 := fold_left g l s) end.
+    destruct (hlookup k (hosts s1)) as [h1|] eqn:L1; [|left; exact L1].
+    right. exists (set_dirty false h1). rewrite hosts_send. unfold upd_host. cbn [hosts set_hosts].
+    rewrite hlookup_hupd, ip_eqb_refl, L1. split; reflexivity.
+Qed.
+
+Lemma notify_host_idem k b b' s : notify_host k b' (notify_host k b s) = notify_host k b s.
+Proof.
+  destruct (notify_host_clean k b s) as [N|(h & L & D)]; set (r := notify_host k b s) in *; unfold notify_host at 1.
+  - rewrite N. reflexivity.
+  - rewrite L, D. reflexivity.
+Qed.
+
+(* a second Notify with the same Frame emits nothing and changes nothing (also through the DHCP path, also when the
+   channel was full at the first call) *)
+Theorem notify_twice_proof f s : notify f (notify f s) = notify f s.
+Proof.
+  destruct (fr_host f) as [k|] eqn:FH.
+  - unfold notify. rewrite FH. apply notify_host_idem.
+  - set (offer := match find_mac (fr_src f) (macs s) with Some e => m_offer e | None => IPnone end).
+    assert (NS : notify f s = s \/ (notify f s = notify_host offer true s /\ negb (fr_dhcp4 f) = false /\ negb (is_valid offer) = false)).
+    { unfold notify. rewrite FH. destruct (negb (fr_dhcp4 f)); [left; reflexivity|]. fold offer.
+      destruct (negb (is_valid offer)); [left; reflexivity|]. destruct (hlookup offer (hosts s)); [right; auto|left; reflexivity]. }
+    destruct NS as [E|(E & DH & V)]; [rewrite E; exact E|].
+    rewrite E. set (r := notify_host offer true s).
+    assert (O : match find_mac (fr_src f) (macs r) with Some e => m_offer e | None => IPnone end = offer).
+    { apply (proj1 (notify_host_Same offer true s) (fr_src f)). }
+    unfold notify. rewrite FH, DH, O, V.
+    destruct (hlookup offer (hosts r)) eqn:L2; [apply notify_host_idem|reflexivity].
+Qed.
+
+Corollary notify_twice_step c s : snd (step c s Notify) = ONone ->
+  fst (step c (fst (step c s Notify)) Notify) = fst (step c s Notify) \/ lastf (fst (step c s Notify)) = None.
+Proof.
+  cbn [step]. destruct (lastf s) as [f|] eqn:LF; cbn [fst snd]; [|discriminate]. intros _.
+  destruct (lastf (notify f s)) as [f'|] eqn:LF2; [|right; reflexivity]. left.
+  assert (E : lastf (notify f s) = lastf s).
+  { unfold notify. destruct (fr_host f); [|destruct (negb (fr_dhcp4 f)); [reflexivity|]; destruct (negb (is_valid _)); [reflexivity|];
+      destruct (hlookup _ (hosts s)); [|reflexivity]]; apply notify_host_lastf. }
+  rewrite E, LF in LF2. inversion LF2; subst f'. apply notify_twice_proof.
+Qed.
+
+(* the full channel: sendNotification drops (never blocks under the lock), and makeOffline has cleared the pending mark:
+   the offline transition is reported by no later step -- LOST.  "None is lost" therefore needs the property's own
+   hypothesis that the caller drains the channel; with it the channel never holds more than one unit's notifications *)
+Theorem full_channel_drops_proof n s : List.length (chan s) = chan_cap -> send n s = s.
+Proof. intros F. unfold send. rewrite F, Nat.ltb_irrefl. reflexivity. Qed.
+
+Theorem full_channel_loses_offline_proof k s h :
+  List.length (chan s) = chan_cap -> hlookup k (hosts s) = Some h ->
+  let s' := make_offline k s in
+  chan s' = chan s /\ exists h', hlookup k (hosts s') = Some h' /\ h_online h' = false /\ h_dirty h' = false.
+Proof.
+  intros F L. cbn zeta. unfold make_offline. rewrite L.
+  cbn [chan upd_mac set_macs upd_host set_hosts]. rewrite F, Nat.ltb_irrefl.
+  split; [reflexivity|]. cbn [hosts upd_mac set_macs upd_host set_hosts]. rewrite hlookup_hupd, ip_eqb_refl, L.
+  eexists. split; [reflexivity|]. split; reflexivity.
+Qed.
+
+(* ------------------------------------------------------------------ *)
+(* whole histories: for every address, the SEQUENCE of notifications about it that the history emits is exactly the
+   sequence of transitions the reference owes it -- no duplicate, no loss, nothing else (hence equal multisets) *)
+Fixpoint dues (c : cfg) (r : rstate) (us : list dunit) (x : ip) : list (ip * bool) :=
+  match us with
+  | [] => []
+  | u :: rest => due c r (to_u6 u) x ++ dues c (rnext c r (to_u6 u)) rest x
+  end.
+
+Lemma all_once_sequence c us : forall s r, all_once c s r us ->
+  forall x, about x (concat (emissions c s us)) = dues c r us x.
+Proof.
+  induction us as [|u rest IH]; intros s r H x; [reflexivity|]. destruct H as (A & _ & R).
+  cbn [emissions concat dues]. unfold about. rewrite filter_app. f_equal; [apply A|apply (IH _ _ R x)].
+Qed.
+
+Theorem history_sequence_proof c now s0 us :
+  own_mac c <> rt_mac c -> new_session c now = Ok s0 -> units_ok c s0 us ->
+  forall x, about x (concat (emissions c s0 us)) = dues c (rinit c now) us x.
+Proof. intros NE NS OK. apply all_once_sequence. apply (exactly_once_proof c now s0 us NE NS OK). Qed.
+
+Corollary history_count_proof c now s0 us :
+  own_mac c <> rt_mac c -> new_session c now = Ok s0 -> units_ok c s0 us ->
+  forall x b, List.length (filter (fun p => ip_eqb (fst p) x && Bool.eqb (snd p) b) (concat (emissions c s0 us))) =
+              List.length (filter (fun p => Bool.eqb (snd p) b) (dues c (rinit c now) us x)).
+Proof.
+  intros NE NS OK x b. rewrite <- (history_sequence_proof c now s0 us NE NS OK x). unfold about.
+  induction (concat (emissions c s0 us)) as [|p l IH]; [reflexivity|]. simpl.
+  destruct (ip_eqb (fst p) x); simpl; [destruct (Bool.eqb (snd p) b); simpl; rewrite IH; reflexivity|exact IH].
+Qed.
